@@ -735,8 +735,56 @@ def run(chk):   # noqa
     _pairloop_rule(chk, Program.load("default"))
     _nilfold_rule(chk, prog)
     _pusharity_rule(chk, prog)
+    _splicefold_rule(chk, prog)
     from rules import c02_boot
     c02_boot.run(chk)
+
+
+def _splicefold_rule(chk, prog):
+    """A spliced element `;x` of a literal stands for the elements of x, however many there are - even when x is a
+    constant.  Compile-time folding of an all-constant literal takes each slot's constant as ONE element, so every
+    branch of compile.c that folds (reads slots[i].constant into the value it builds) must be conditioned on a flag
+    that the scan over the slots clears/sets when it meets JANET_SLOT_SPLICED."""
+    rule = "C02-SPLICEFOLD"
+    chk.rule(rule, "every branch of compile.c that folds slot constants into a literal is conditioned on a flag the slot scan derives from JANET_SLOT_SPLICED")
+    tu = prog.tus["compile.c"]
+    n = 0
+    for fn in sorted(tu.funcs.values(), key=lambda f: f.name):
+        slotvecs = set(p_["n"] for p_ in fn.params if "JanetSlot *" in p_.get("t", ""))
+        if not slotvecs:
+            continue
+
+        def folds(body):
+            for y in body.walk():
+                if y.k == "mem" and y.field == "constant" and y.kids and strip_casts(y.kids[0]).k == "sub" \
+                        and is_ref(strip_casts(strip_casts(y.kids[0]).kids[0])) and strip_casts(strip_casts(y.kids[0]).kids[0]).name in slotvecs:
+                    return True
+            return False
+        branches = [x for x in fn.nodes if x.k == "if" and len(x.kids) >= 2 and x.kids[1] is not None and folds(x.kids[1])]
+        if not branches:
+            continue
+        spliceflags = set()
+        for x in fn.nodes:
+            if x.k == "if" and any(y.in_macro("JANET_SLOT_SPLICED") for y in x.kids[0].walk()) and x.kids[1] is not None:
+                for y in x.kids[1].walk():
+                    if y.k == "asg" and y.op == "=" and is_ref(y.kids[0]):
+                        spliceflags.add(y.kids[0].name)
+        chk.analysed(fn)
+        for b in branches:
+            # only the outermost folding branch of a chain carries the clause for its own body
+            n += 1
+            chk.instance(rule)
+            names = set(y.name for y in b.kids[0].walk() if y.k == "ref")
+            direct = any(y.in_macro("JANET_SLOT_SPLICED") for y in b.kids[0].walk())
+            if direct or (names & spliceflags):
+                chk.ok(rule, "%s: folding branch `%s` depends on %s" % (fn.name, b.kids[0].text(), ", ".join(sorted(names & spliceflags)) or "the flag itself"))
+            else:
+                chk.violation(rule, "compile.c", fn.name, "fold:%s" % b.kids[0].text().replace(" ", ""), b.loc,
+                              "the branch `if (%s)` of %s folds slots[i].constant into a literal, but nothing in its condition is derived from "
+                              "JANET_SLOT_SPLICED (flags set under a splice test: %s): a literal whose elements are all constant and one of "
+                              "them spliced, e.g. {;[:a 1]}, is folded with the spliced tuple as a single element" % (
+                                  b.kids[0].text(), fn.name, ", ".join(sorted(spliceflags)) or "none"))
+    chk.floor(rule, 2, n)
 
 
 def _mapform_rule(chk, prog):
